@@ -238,6 +238,19 @@ from rig.place_and_route.utils import _get_minimal_core_reservations
 for _ in range(40):
     cs = sorted(rng.sample(range(20), rng.randint(0, 8))) if rng.random() < 0.8 else [rng.randint(0, 6) for _ in range(rng.randint(0, 6))]
     add("get_minimal_core_reservations %s" % L(cs), show([(c.reservation.start, c.reservation.stop) for c in _get_minimal_core_reservations("cores", cs, (1, 2))]))
+from rig.machine_control.machine_controller import unpack_routing_table_entry
+for _ in range(40):
+    n = rng.choice([16, 16, 16, 16, 15, 17, 0])
+    bs = bytearray(rng.getrandbits(8) for _ in range(n))
+    if n == 16 and rng.random() < 0.3:
+        bs[7] = 0xff
+    def hu2():
+        r = unpack_routing_table_entry(bytes(bs))
+        if r is None:
+            return "none"
+        rte, app, core = r
+        return "(some" + show(((sorted(int(x) for x in rte.route), rte.key, rte.mask), app, core)) + ")"
+    add("unpack_routing_table_entry %s" % L([int(b) for b in bs]), exc_(hu2))
 def EV(evs):
     return "[" + ",".join('{name:="%s",ints:=%s,bytes:=%s}' % (n, show(i), show(b)) for n, i, b in evs) + "]"
 from rig.machine_control import boot as _boot
